@@ -15,11 +15,11 @@ from ..core import Outcome, Partial, violation
 
 ID = "C16"
 RULE = ("A case = scenario (2..4 actors x 1..4 IF.LDM.3 / IF.LDM.4 calls from add, update, delete, request, register / deregister provider and "
-        "consumer, subscribe, plus maintenance passes (collect_trash) and attendance passes (attend_subscriptions) as actors' operations, on "
+        "consumer, subscribe, unsubscribe, plus maintenance passes (collect_trash) and attendance passes (attend_subscriptions) as actors' operations, on "
         "the in-memory back-end with the reactive service / maintenance classes, two objects pre-loaded) + schedule (which runnable actor "
         "continues at each preemption point: opcode events in dictionary_database.py, ldm_service*.py, ldm_maintenance*.py, if_ldm_3/4.py "
         "and lock operations). Quick: hypothesis schedules (sparse priority changes and dense) over drawn scenarios plus every "
-        "single-preemption schedule of 7 fixed scenarios; thorough: 15 fixed scenarios and many more random ones. Oracle: the per-actor "
+        "single-preemption schedule of 9 fixed scenarios; thorough: 18 fixed scenarios and many more random ones. Oracle: the per-actor "
         "responses and the final store / registries must equal those of some sequential order of the same calls respecting real-time "
         "precedence (exhaustive memoised search); identifiers unique; a query or notification returns only objects present at some instant "
         "of the call and all objects present throughout; no actor raises; no deadlock. Non-trivial = schedule with a context switch inside "
@@ -32,7 +32,7 @@ ASSUMPTIONS = [
 
 TYPES = {"cam": 2, "vam": 16}
 OPS = ["add_cam", "add_vam", "update0", "update1", "update_own", "delete0", "delete1", "delete_own", "request_all", "request_cam", "reg_p16", "dereg_p16", "reg_c16", "dereg_c16",
-       "reg_p3", "reg_c3", "subscribe", "gc", "attend"]
+       "reg_p3", "reg_c3", "subscribe", "unsub0", "unsub_sub", "gc", "attend"]
 
 
 def mk_obj(kind, tag):
@@ -65,7 +65,13 @@ def build_world(s):
     for i, (kind, tag) in enumerate((("cam", 900), ("vam", 901))):
         r = ldm.if_ldm_3.add_provider_data(add_req(2, mk_obj(kind, tag), i))
         pre.append((r.data_object_id, mk_obj(kind, tag)))
-    return {"clock": clock, "ldm": ldm, "add_req": add_req, "pre": pre, "ts": ts}
+    from flexstack.facilities.local_dynamic_map.ldm_classes import SubscribeDataobjectsReq
+    notifications = []
+    req0 = SubscribeDataobjectsReq(application_id=2, data_object_type=(2,), notify_time=TimestampIts(0), multiplicity=1)
+    req_sub = SubscribeDataobjectsReq(application_id=2, data_object_type=(2, 16), notify_time=TimestampIts(0), multiplicity=0)
+    r0 = ldm.if_ldm_4.subscribe_data_consumer(req0, lambda resp: notifications.append((s.point, tuple(sorted(core.jdump(x.get("dataObject")) for x in resp.data_objects)))))
+    return {"clock": clock, "ldm": ldm, "add_req": add_req, "pre": pre, "ts": ts, "notifications": notifications, "req_sub": req_sub,
+            "sub_ids": {"S0": r0.subscription_id, "SUB": hash(req_sub)}}
 
 
 class Model:
@@ -76,13 +82,15 @@ class Model:
         self.next_id = max(self.objs) + 1 if self.objs else 0
         self.providers = {2}
         self.consumers = {2}
+        self.subs = {"S0": 1, "SUB": 0}      # live subscriptions per request (identical requests share the identifier)
 
     def key(self):
-        return (tuple(sorted((i, core.jdump(o)) for i, o in self.objs.items())), self.next_id, tuple(sorted(self.providers)), tuple(sorted(self.consumers)))
+        return (tuple(sorted((i, core.jdump(o)) for i, o in self.objs.items())), self.next_id, tuple(sorted(self.providers)), tuple(sorted(self.consumers)),
+                (self.subs["S0"], self.subs["SUB"]))
 
     def copy(self):
         m = Model([])
-        m.objs, m.next_id, m.providers, m.consumers = dict(self.objs), self.next_id, set(self.providers), set(self.consumers)
+        m.objs, m.next_id, m.providers, m.consumers, m.subs = dict(self.objs), self.next_id, set(self.providers), set(self.consumers), dict(self.subs)
         return m
 
     def apply(self, call):
@@ -130,7 +138,15 @@ class Model:
             self.consumers.discard(call[1])
             return 0 if ok else 1
         if k == "subscribe":
-            return 0 if call[1] in self.consumers else 1
+            if call[1] not in self.consumers:
+                return 1
+            self.subs["SUB"] += 1
+            return 0
+        if k == "unsub":
+            if 2 not in self.consumers or self.subs[call[1]] == 0:
+                return 1
+            self.subs[call[1]] = 0
+            return 0
         return None      # gc, attend
 
 
@@ -182,7 +198,7 @@ def _run_schedule(case):
                                                         if_ldm_3 as i3m, if_ldm_4 as i4m)
     from flexstack.facilities.local_dynamic_map.ldm_classes import (AccessPermission, Circle, DeleteDataProviderReq, DeregisterDataConsumerReq, DeregisterDataProviderReq, GeometricArea,
                                                                     RegisterDataConsumerReq, RegisterDataProviderReq, RequestDataObjectsReq, RequestedDataObjectsResult,
-                                                                    SubscribeDataobjectsReq, TimestampIts, TimeValidity, UpdateDataProviderReq, Location)
+                                                                    SubscribeDataobjectsReq, TimestampIts, TimeValidity, UnsubscribeDataConsumerReq, UpdateDataProviderReq, Location)
     files = {m.__file__ for m in (dd, ls, lsr, lm, lmr, i3m, i4m)}
     s = sch.Scheduler(files, case["schedule"], max_points=60000)
     w = build_world(s)
@@ -190,7 +206,7 @@ def _run_schedule(case):
     i3, i4 = ldm.if_ldm_3, ldm.if_ldm_4
     vs = []
     history = []
-    notifications = []     # (point, set of canonical objects)
+    notifications = w["notifications"]     # (point, set of canonical objects)
     try:
         area = GeometricArea(Circle(1000), None, None)
 
@@ -249,9 +265,13 @@ def _run_schedule(case):
                         result = int(i4.deregister_data_consumer(DeregisterDataConsumerReq(application_id=16)).ack)
                     elif op == "subscribe":
                         call = ("subscribe", 2)
-                        r = i4.subscribe_data_consumer(SubscribeDataobjectsReq(application_id=2, data_object_type=(2, 16), notify_time=TimestampIts(0), multiplicity=0),
+                        r = i4.subscribe_data_consumer(w["req_sub"],
                                                        lambda resp: notifications.append((s.point, tuple(sorted(core.jdump(x.get("dataObject")) for x in resp.data_objects)))))
                         result = 0 if int(r.result) == 0 else 1
+                    elif op in ("unsub0", "unsub_sub"):
+                        tok = "S0" if op == "unsub0" else "SUB"
+                        call = ("unsub", tok)
+                        result = int(i4.unsubscribe_data_consumer(UnsubscribeDataConsumerReq(application_id=2, subscription_id=w["sub_ids"][tok])).result)
                     elif op == "gc":
                         call = ("gc",)
                         ldm.ldm_maintenance.collect_trash()
@@ -291,7 +311,8 @@ def _run_schedule(case):
                     final_objs[i] = rec["dataObject"]
             if not corrupt:
                 final_key = (tuple(sorted((i, core.jdump(o)) for i, o in final_objs.items())), max([p[0] for p in w["pre"]] + ids) + 1,
-                             tuple(sorted(ldm.ldm_service.get_data_provider_its_aid())), tuple(sorted(ldm.ldm_service.get_data_consumer_its_aid())))
+                             tuple(sorted(ldm.ldm_service.get_data_provider_its_aid())), tuple(sorted(ldm.ldm_service.get_data_consumer_its_aid())),
+                             tuple(sum(1 for x in ldm.ldm_service.subscriptions if hash(x.subscription_request) == w["sub_ids"][t]) for t in ("S0", "SUB")))
                 if not linearizable(history, w["pre"], final_key):
                     kinds = sorted({h["call"][0] for h in history if h["call"][0] not in ("gc", "attend", "request")})
                     vs.append(violation(ID, "C16/not-linearizable:%s" % "+".join(kinds), "no sequential order of the calls explains the responses and the final state; history: %s; final objects %r providers %r consumers %r" % (
@@ -350,6 +371,9 @@ FIXED = [
     {"actors": [["request_all"], ["delete0"], ["delete1"]]},
     {"actors": [["reg_p16", "reg_c16"], ["reg_p3", "reg_c3"]]},
     {"actors": [["gc"], ["delete0"], ["add_cam"]]},
+    {"actors": [["unsub0"], ["unsub0"]]},
+    {"actors": [["subscribe", "unsub_sub"], ["unsub_sub", "subscribe"], ["attend"]]},
+    {"actors": [["unsub0"], ["attend"], ["add_cam"]]},
 ]
 
 
@@ -384,7 +408,7 @@ def jobs(tier, seed):
     if tier == "quick":
         for s in range(10):
             js.append({"fn": "vf.props.c16:job_random", "args": {"n": 250, "seed": seed * 1000 + s}})
-        for sc in (0, 1, 2, 3, 12, 13, 14):
+        for sc in (0, 1, 2, 3, 12, 13, 14, 15, 17):
             js.append({"fn": "vf.props.c16:job_systematic", "args": {"scenario_i": sc, "shard": 0, "nshards": 1}})
     else:
         for s in range(16):
